@@ -18,11 +18,36 @@ def G(g):
     return np.array(g, dtype=I_).reshape(-1)
 
 
+LAYOUT = 'c'        # memory layout of the 2-d arrays handed to the library: 'c' | 'strided' | 'fortran' | 'colslice'
+
+
+def set_layout(name):
+    global LAYOUT
+    LAYOUT = name or 'c'
+
+
+def _lay(a):
+    """same values, different (legitimate) numpy memory layout: views like lst[::2], z2inv's column slice, Fortran order"""
+    if LAYOUT == 'c' or a.ndim != 2 or a.size == 0:
+        return a
+    if LAYOUT == 'strided':
+        big = np.zeros((2 * a.shape[0], a.shape[1]), dtype=a.dtype)
+        big[::2] = a
+        return big[::2]
+    if LAYOUT == 'fortran':
+        return np.asfortranarray(a)
+    if LAYOUT == 'colslice':
+        big = np.zeros((a.shape[0], a.shape[1] + 3), dtype=a.dtype)
+        big[:, :a.shape[1]] = a
+        return big[:, :a.shape[1]]
+    return a
+
+
 def GS(gs, width=None):
     a = np.array(gs, dtype=I_)
     if a.size == 0:
         a = a.reshape(0, width if width is not None else 0)
-    return a
+    return _lay(a)
 
 
 def P(a):
